@@ -1,4 +1,554 @@
+/-
+C28 — playback endpoints survive any recording directory content.  Property theorems.
+
+The property ("answer with data or an error, never crash the server process") for the MediaMTX-owned
+parsers is `SafeRes`: no panic, no hang, and every buffer the parser allocates is covered by bytes that really
+are in the file.  It is
+
+* proved at full strength for the code with the proposed fix (`parseSegment_fixed_total`, `muxWalk_fixed_total`),
+  for every file content and every behaviour of the third-party decoders (`∀ lib`);
+* FALSE for the code as it is: `parse_total_full` / `mux_total_full` are refuted by concrete witnesses
+  (`parse_total_witness_div`, `parse_total_witness_alloc`, `mux_total_witness`);
+* proved for the code as it is under the explicit side conditions that delimit the three defect classes
+  (`parseSegment_cur_partial`, `muxWalk_cur_partial`); and the code as it is never hangs
+  (`parseSegment_cur_no_hang`).
+-/
 import MtxVerif.Model.C28
+
 namespace MtxVerif.C28
-theorem placeholder : True := trivial
+
+/-! #### small helpers -/
+
+theorem tMoof_ne_tMdat : tMoof ≠ tMdat := by decide
+
+theorem bne_false_eq {a b : Bytes} (h : ¬ ((a != b) = true)) : a = b := by
+  simpa using h
+
+/-- an allocation record that is harmless: it is covered by the file -/
+def Good (c : Cfg) (n : Nat) (a : Alloc) : Prop := a.rem ≤ n ∧ (c.guardSz = true → a.req ≤ a.rem)
+
+def AllGood (c : Cfg) (n : Nat) (al : List Alloc) : Prop := ∀ a ∈ al, Good c n a
+
+theorem allGood_nil (c : Cfg) (n : Nat) : AllGood c n [] := by intro a h; cases h
+
+theorem allGood_append {c : Cfg} {n : Nat} {al : List Alloc} {a : Alloc} (h : AllGood c n al) (ha : Good c n a) :
+    AllGood c n (al ++ [a]) := by
+  intro x hx
+  rcases List.mem_append.mp hx with hx | hx
+  · exact h x hx
+  · simp at hx; subst hx; exact ha
+
+theorem allGood_app {c : Cfg} {n : Nat} {a b : List Alloc} (ha : AllGood c n a) (hb : AllGood c n b) :
+    AllGood c n (a ++ b) := by
+  intro x hx
+  rcases List.mem_append.mp hx with hx | hx
+  · exact ha x hx
+  · exact hb x hx
+
+/-! #### "find last valid moof and mdat" terminates -/
+
+theorem moofLoop_no_hang (f : Bytes) : ∀ (fuel pos : Nat) (last : Option Nat),
+    f.length < fuel + pos → 1 ≤ fuel → moofLoop f fuel pos last ≠ none := by
+  intro fuel
+  induction fuel with
+  | zero => intro _ _ _ h; omega
+  | succ k ih =>
+    intro pos last hlen _
+    unfold moofLoop
+    split
+    · simp
+    · rename_i h1
+      split
+      · simp
+      · rename_i h2
+        simp only []
+        split
+        · simp
+        · rename_i h3
+          split
+          · simp
+          · rename_i h4
+            have e2 := bne_false_eq h2
+            have e4 := bne_false_eq h4
+            have hpos : rd32 f pos ≠ 0 := by
+              intro h0
+              rw [h0, Nat.add_zero] at e4
+              exact tMoof_ne_tMdat (e2.symm.trans e4)
+            apply ih
+            · omega
+            · omega
+
+/-! #### readBox -/
+
+theorem readBox_error {c : Cfg} {f : Bytes} {pos : Nat} {tag : Bytes} {e : Err} {al : List Alloc}
+    {r : Res Int64} (h : readBox c f pos tag e al = .error r) (hal : AllGood c f.length al) :
+    r.1 ≠ .panicDiv ∧ r.1 ≠ .hang ∧ AllGood c f.length r.2 := by
+  unfold readBox at h
+  split at h
+  · injection h with h; subst h; exact ⟨by simp, by simp, hal⟩
+  · split at h
+    · injection h with h; subst h; exact ⟨by simp, by simp, hal⟩
+    · simp only [] at h
+      split at h
+      · injection h with h; subst h; exact ⟨by simp, by simp, hal⟩
+      · rename_i hg
+        split at h
+        · injection h with h; subst h
+          refine ⟨by simp, by simp, allGood_append hal ⟨Nat.sub_le _ _, ?_⟩⟩
+          intro hgs
+          simp only [hgs, Bool.true_and, Bool.or_eq_true, decide_eq_true_eq] at hg
+          show sub32 (rd32 f pos) 8 ≤ f.length - (pos + 8)
+          omega
+        · injection h
+
+theorem readBox_ok {c : Cfg} {f : Bytes} {pos : Nat} {tag : Bytes} {e : Err} {al al' : List Alloc}
+    {p : Bytes} {pos' : Nat} (h : readBox c f pos tag e al = .ok (p, pos', al')) (hal : AllGood c f.length al) :
+    pos + 8 ≤ pos' ∧ AllGood c f.length al' := by
+  unfold readBox at h
+  split at h
+  · injection h
+  · split at h
+    · injection h
+    · simp only [] at h
+      split at h
+      · injection h
+      · split at h
+        · injection h
+        · rename_i hfit
+          injection h with h
+          injection h with h1 h2
+          injection h2 with h2 h3
+          subst h2; subst h3
+          exact ⟨by omega, allGood_append hal ⟨Nat.sub_le _ _, fun _ => by show sub32 (rd32 f pos) 8 ≤ f.length - (pos + 8); omega⟩⟩
+
+/-! #### one traf iteration -/
+
+theorem mem_of_findTrack {tracks : List Track} {id : Nat} {t : Track} (h : findTrack tracks id = some t) :
+    t ∈ tracks := List.mem_of_find?_eq_some h
+
+theorem trafStep_error {c : Cfg} {lib : Lib} {f : Bytes} {tracks : List Track} {pos : Nat} {mx : Int64}
+    {al : List Alloc} {r : Res Int64} (htr : ∀ t ∈ tracks, t.ts ≠ 0)
+    (h : trafStep c lib f tracks pos mx al = .error r) (hal : AllGood c f.length al) :
+    r.1 ≠ .panicDiv ∧ r.1 ≠ .hang ∧ AllGood c f.length r.2 := by
+  unfold trafStep at h
+  split at h
+  · cases h; exact ⟨by simp, by simp, hal⟩
+  split at h
+  · cases h; exact ⟨by simp, by simp, hal⟩
+  split at h
+  · cases h; exact ⟨by simp, by simp, hal⟩
+  split at h
+  · rename_i r1 hb1
+    cases h; exact readBox_error hb1 hal
+  rename_i p1 pos1 al1 hb1
+  have g1 := (readBox_ok hb1 hal).2
+  split at h
+  · cases h; exact ⟨by simp, by simp, g1⟩
+  split at h
+  · cases h; exact ⟨by simp, by simp, g1⟩
+  rename_i tr hft
+  split at h
+  · rename_i r2 hb2
+    cases h; exact readBox_error hb2 g1
+  rename_i p2 pos2 al2 hb2
+  have g2 := (readBox_ok hb2 g1).2
+  split at h
+  · cases h; exact ⟨by simp, by simp, g2⟩
+  split at h
+  · rename_i r3 hb3
+    cases h; exact readBox_error hb3 g2
+  rename_i p3 pos3 al3 hb3
+  have g3 := (readBox_ok hb3 g2).2
+  split at h
+  · cases h; exact ⟨by simp, by simp, g3⟩
+  split at h
+  · rename_i hz
+    exact absurd hz (htr tr (mem_of_findTrack hft))
+  · cases h
+
+theorem trafStep_ok {c : Cfg} {lib : Lib} {f : Bytes} {tracks : List Track} {pos : Nat} {mx mx' : Int64}
+    {al al' : List Alloc} {pos' : Nat}
+    (h : trafStep c lib f tracks pos mx al = .ok (pos', mx', al')) (hal : AllGood c f.length al) :
+    pos + 32 ≤ pos' ∧ AllGood c f.length al' := by
+  unfold trafStep at h
+  split at h
+  · cases h
+  split at h
+  · cases h
+  split at h
+  · cases h
+  split at h
+  · cases h
+  rename_i p1 pos1 al1 hb1
+  have g1 := readBox_ok hb1 hal
+  split at h
+  · cases h
+  split at h
+  · cases h
+  split at h
+  · cases h
+  rename_i p2 pos2 al2 hb2
+  have g2 := readBox_ok hb2 g1.2
+  split at h
+  · cases h
+  split at h
+  · cases h
+  rename_i p3 pos3 al3 hb3
+  have g3 := readBox_ok hb3 g2.2
+  split at h
+  · cases h
+  split at h
+  · cases h
+  · cases h
+    exact ⟨by omega, g3.2⟩
+
+/-- "foreach traf": never divides by zero (given the library's TimeScale ≠ 0 contract), never hangs, and
+every allocation it adds is `Good`. -/
+theorem trafLoop_ok (c : Cfg) (lib : Lib) (f : Bytes) (tracks : List Track) (htr : ∀ t ∈ tracks, t.ts ≠ 0) :
+    ∀ (fuel pos : Nat) (mx : Int64) (al : List Alloc), f.length < fuel + pos → 1 ≤ fuel →
+      AllGood c f.length al →
+      (trafLoop c lib f tracks fuel pos mx al).1 ≠ .panicDiv ∧
+      (trafLoop c lib f tracks fuel pos mx al).1 ≠ .hang ∧
+      AllGood c f.length (trafLoop c lib f tracks fuel pos mx al).2 := by
+  intro fuel
+  induction fuel with
+  | zero => intro _ _ _ _ h; omega
+  | succ k ih =>
+    intro pos mx al hlen _ hal
+    unfold trafLoop
+    split
+    · rename_i r hr
+      exact trafStep_error htr hr hal
+    · rename_i pos' mx' al' hs
+      have g := trafStep_ok hs hal
+      -- a successful step read at least the 8-byte traf header, so pos + 8 ≤ length
+      have hlen8 : pos + 8 ≤ f.length := by
+        unfold trafStep at hs
+        split at hs
+        · cases hs
+        · omega
+      exact ih pos' mx' al' (by omega) (by omega) g.2
+
+/-! #### segmentFMP4ReadDurationFromParts -/
+
+theorem durFromParts_ok (c : Cfg) (lib : Lib) (f : Bytes) (tracks : List Track) (htr : ∀ t ∈ tracks, t.ts ≠ 0) :
+    (durFromParts c lib f tracks).1 ≠ .panicDiv ∧ (durFromParts c lib f tracks).1 ≠ .hang ∧
+    AllGood c f.length (durFromParts c lib f tracks).2 := by
+  unfold durFromParts
+  split
+  · exact ⟨by simp, by simp, allGood_nil _ _⟩
+  split
+  · exact ⟨by simp, by simp, allGood_nil _ _⟩
+  simp only []
+  split
+  · exact ⟨by simp, by simp, allGood_nil _ _⟩
+  split
+  · exact ⟨by simp, by simp, allGood_nil _ _⟩
+  split
+  · rename_i hm
+    exact absurd hm (moofLoop_no_hang f _ _ _ (by omega) (by omega))
+  · exact ⟨by simp, by simp, allGood_nil _ _⟩
+  · split
+    · exact ⟨by simp, by simp, allGood_nil _ _⟩
+    split
+    · exact ⟨by simp, by simp, allGood_nil _ _⟩
+    · exact trafLoop_ok c lib f tracks htr _ _ _ _ (by omega) (by omega) (allGood_nil _ _)
+
+/-! #### segmentFMP4ReadHeader -/
+
+/-- the mvhd the header parser consults has a non-zero time scale (the side condition of finding
+`mvhd-timescale-zero`) -/
+def TimescaleNZ (lib : Lib) (f : Bytes) : Prop :=
+  ∀ dur ts, lib.mvhd (f.drop (rd32 f 0 + 16)) (sub32 (rd32 f (rd32 f 0)) 8) = .ok (dur, ts) → ts ≠ 0
+
+theorem readHeader_ok (c : Cfg) (lib : Lib) (f : Bytes) (hts : c.guardTs = true ∨ TimescaleNZ lib f) :
+    (readHeader c lib f).1 ≠ .panicDiv ∧ (readHeader c lib f).1 ≠ .hang ∧
+    AllGood c f.length (readHeader c lib f).2 := by
+  unfold readHeader
+  split
+  · exact ⟨by simp, by simp, allGood_nil _ _⟩
+  split
+  · exact ⟨by simp, by simp, allGood_nil _ _⟩
+  simp only []
+  split
+  · exact ⟨by simp, by simp, allGood_nil _ _⟩
+  split
+  · exact ⟨by simp, by simp, allGood_nil _ _⟩
+  split
+  · exact ⟨by simp, by simp, allGood_nil _ _⟩
+  · exact ⟨by simp, by simp, allGood_nil _ _⟩
+  · rename_i dur ts hm
+    split
+    · rename_i hz
+      split
+      · exact ⟨by simp, by simp, allGood_nil _ _⟩
+      · rename_i hg
+        rcases hts with hts | hts
+        · exact absurd hts hg
+        · exact absurd hz (hts dur ts hm)
+    · generalize headerReq c (rd32 f 0) (rd32 f (rd32 f 0)) = req
+      split
+      · exact ⟨by simp, by simp, allGood_nil _ _⟩
+      · rename_i hgd
+        have good1 : AllGood c f.length [Alloc.mk req f.length] := by
+          intro a ha
+          simp at ha; subst ha
+          refine ⟨Nat.le_refl _, ?_⟩
+          intro hgs
+          simp only [hgs, Bool.true_and, decide_eq_true_eq] at hgd
+          show req ≤ f.length
+          omega
+        split
+        · exact ⟨by simp, by simp, good1⟩
+        · split
+          · exact ⟨by simp, by simp, good1⟩
+          · exact ⟨by simp, by simp, good1⟩
+          · exact ⟨by simp, by simp, good1⟩
+
+/-- tracks returned by a successful header parse come from `Init.Unmarshal`, hence have TimeScale ≠ 0 -/
+theorem readHeader_tracks (c : Cfg) (lib : Lib) (hlib : LibOK lib) (f : Bytes) (tr : List Track) (d : Nat)
+    (h : (readHeader c lib f).1 = .ok (tr, d)) : ∀ t ∈ tr, t.ts ≠ 0 := by
+  unfold readHeader at h
+  split at h
+  · simp at h
+  split at h
+  · simp at h
+  simp only [] at h
+  split at h
+  · simp at h
+  split at h
+  · simp at h
+  split at h
+  · simp at h
+  · simp at h
+  · split at h
+    · split at h <;> simp at h
+    · split at h
+      · simp at h
+      · split at h
+        · simp at h
+        · split at h
+          · simp at h
+          · simp at h
+          · rename_i tr' hinit
+            simp at h
+            rw [← h.1]
+            exact hlib _ _ hinit
+
+/-! #### parseSegment: the function that runs in the parseSegments goroutines -/
+
+theorem parseSegment_ok (c : Cfg) (lib : Lib) (hlib : LibOK lib) (f : Bytes)
+    (hts : c.guardTs = true ∨ TimescaleNZ lib f) :
+    (parseSegment c lib f).1 ≠ .panicDiv ∧ (parseSegment c lib f).1 ≠ .hang ∧
+    AllGood c f.length (parseSegment c lib f).2 := by
+  have H := readHeader_ok c lib f hts
+  have T := readHeader_tracks c lib hlib f
+  unfold parseSegment
+  split
+  · rename_i tr d al hr
+    rw [hr] at H T
+    have htr := T tr d rfl
+    have D := durFromParts_ok c lib f tr htr
+    split
+    · split
+      · rename_i d2 al2 hd
+        rw [hd] at D
+        exact ⟨by simp, by simp, allGood_app H.2.2 D.2.2⟩
+      · rename_i e al2 hd
+        rw [hd] at D
+        exact ⟨by simp, by simp, allGood_app H.2.2 D.2.2⟩
+      · rename_i al2 hd
+        rw [hd] at D
+        exact absurd rfl D.1
+      · rename_i al2 hd
+        rw [hd] at D
+        exact absurd rfl D.2.1
+    · exact ⟨by simp, by simp, H.2.2⟩
+  · rename_i e al hr
+    rw [hr] at H
+    exact ⟨by simp, by simp, H.2.2⟩
+  · rename_i al hr
+    rw [hr] at H
+    exact absurd rfl H.1
+  · rename_i al hr
+    rw [hr] at H
+    exact absurd rfl H.2.1
+
+/-- **C28 at full strength, for the code with the proposed fix**: whatever the file contains and whatever
+the third-party decoders answer (as long as returned tracks have TimeScale ≠ 0), `parseSegment` neither
+panics nor hangs and allocates no buffer that the file does not cover. -/
+theorem parseSegment_fixed_total (lib : Lib) (hlib : LibOK lib) (f : Bytes) :
+    SafeRes f.length (parseSegment fixed lib f) := by
+  have h := parseSegment_ok fixed lib hlib f (Or.inl rfl)
+  refine ⟨h.1, h.2.1, ?_⟩
+  intro a ha
+  have := h.2.2 a ha
+  exact ⟨this.2 rfl, this.1⟩
+
+/-- The same statement for the code as it is — FALSE, see the witnesses. -/
+def parse_total_full : Prop := ∀ (lib : Lib), LibOK lib → ∀ f : Bytes, SafeRes f.length (parseSegment cur lib f)
+
+/-- 16-byte file `[0,0,0,8,"ftyp",0,0,0,8,"moov"]`; decoder answering "duration 0, timescale 0". -/
+def witnessFile : Bytes := [0, 0, 0, 8] ++ tFtyp ++ [0, 0, 0, 8] ++ tMoov
+
+def witnessLibDiv : Lib :=
+  { mvhd := fun _ _ => .ok (0, 0), tfhd := fun _ => none, tfdt := fun _ => none, trun := fun _ => none,
+    init := fun _ => .other }
+
+theorem parse_total_witness_div : ¬ parse_total_full := by
+  intro h
+  have := (h witnessLibDiv (by intro b tr hb; cases hb) witnessFile).1
+  exact this (by decide)
+
+/-- file: ftyp(8) moov(8) moof(16: moof+mfhd hdr) … with a tfhd whose size field is 4: the code requests
+`uint32(4-8) = 4294967292` bytes for a 60-byte file. -/
+def witnessFileAlloc : Bytes :=
+  [0, 0, 0, 8] ++ tFtyp ++ [0, 0, 0, 8] ++ tMoov ++
+  [0, 0, 0, 36] ++ tMoof ++ [0, 0, 0, 16] ++ tMfhd ++ [0, 0, 0, 0, 0, 0, 0, 0] ++
+  [0, 0, 0, 12] ++ tTraf ++ [0, 0, 0, 4] ++ tTfhd ++
+  [0, 0, 0, 8] ++ tMdat
+
+def witnessLibAlloc : Lib :=
+  { mvhd := fun _ _ => .ok (0, 1000), tfhd := fun _ => none, tfdt := fun _ => none, trun := fun _ => none,
+    init := fun _ => .ok [⟨1, 90000⟩] }
+
+theorem witnessAlloc_value :
+    (parseSegment cur witnessLibAlloc witnessFileAlloc) = (.err .eof, [⟨16, 60⟩, ⟨4294967292, 0⟩]) := by decide
+
+theorem parse_total_witness_alloc : ¬ parse_total_full := by
+  intro h
+  have := (h witnessLibAlloc (by intro b tr hb; simp [witnessLibAlloc] at hb; subst hb; simp) witnessFileAlloc).2.2
+  rw [witnessAlloc_value] at this
+  have := (this ⟨4294967292, 0⟩ (by simp)).1
+  simp at this
+
+/-- **C28 for the code as it is, outside the two defect classes**: if the mvhd time scale is not zero
+(`mvhd-timescale-zero`) and every declared size the parser allocates for is covered by the file
+(`declared-size-alloc`), the property holds. -/
+theorem parseSegment_cur_partial (lib : Lib) (hlib : LibOK lib) (f : Bytes)
+    (hts : TimescaleNZ lib f) (hfit : Fits (parseSegment cur lib f).2) :
+    SafeRes f.length (parseSegment cur lib f) := by
+  have h := parseSegment_ok cur lib hlib f (Or.inr hts)
+  refine ⟨h.1, h.2.1, ?_⟩
+  intro a ha
+  exact ⟨hfit a ha, (h.2.2 a ha).1⟩
+
+/-- The code as it is never hangs, whatever the file: both loops consume the file. -/
+theorem parseSegment_cur_no_hang (lib : Lib) (hlib : LibOK lib) (f : Bytes) (hts : TimescaleNZ lib f) :
+    (parseSegment cur lib f).1 ≠ .hang :=
+  (parseSegment_ok cur lib hlib f (Or.inr hts)).2.1
+
+/-- …and it panics only by the division: if the time scale is not zero there is no panic at all. -/
+theorem parseSegment_cur_no_panic (lib : Lib) (hlib : LibOK lib) (f : Bytes) (hts : TimescaleNZ lib f) :
+    (parseSegment cur lib f).1 ≠ .panicDiv :=
+  (parseSegment_ok cur lib hlib f (Or.inr hts)).1
+
+/-- the duration parser alone (reached with the tracks of the first segment) -/
+theorem durFromParts_fixed_total (lib : Lib) (f : Bytes) (tracks : List Track) (htr : ∀ t ∈ tracks, t.ts ≠ 0) :
+    SafeRes f.length (durFromParts fixed lib f tracks) := by
+  have h := durFromParts_ok fixed lib f tracks htr
+  exact ⟨h.1, h.2.1, fun a ha => ⟨(h.2.2 a ha).2 rfl, (h.2.2 a ha).1⟩⟩
+
+/-! #### segmentFMP4MuxParts callback (GET /get) -/
+
+/-- with the proposed nil checks the callback cannot dereference nil, for every event sequence the library
+may deliver -/
+theorem muxWalk_fixed_total : ∀ (evs : List MEv) (h d : Bool), muxWalk true h d evs = .noPanic := by
+  intro evs
+  induction evs with
+  | nil => intro h d; rfl
+  | cons e r ih =>
+    intro h d
+    cases e with
+    | other => simp [muxWalk, ih]
+    | tfhd ok => cases ok <;> simp [muxWalk, ih]
+    | tfdt ok tf => cases ok <;> cases h <;> cases tf <;> simp [muxWalk, ih]
+    | trun ok => cases ok <;> cases d <;> simp [muxWalk, ih]
+
+def mux_total_full : Prop := ∀ evs : List MEv, muxWalk false false false evs = .noPanic
+
+/-- a file whose first fragment-level box is a `tfdt` (or a `trun`) -/
+theorem mux_total_witness : ¬ mux_total_full := by
+  intro h
+  have := h [.tfdt true false]
+  revert this
+  decide
+
+theorem mux_total_witness_trun : muxWalk false false false [.other, .tfhd true, .trun true] = .panicNil := by decide
+
+/-- once a tfhd and a tfdt have been seen the callback cannot dereference nil any more -/
+theorem muxWalk_cur_started : ∀ (evs : List MEv), muxWalk false true true evs = .noPanic := by
+  intro evs
+  induction evs with
+  | nil => rfl
+  | cons e r ih =>
+    cases e with
+    | other => simp [muxWalk, ih]
+    | tfhd ok => cases ok <;> simp [muxWalk, ih]
+    | tfdt ok tf => cases ok <;> cases tf <;> simp [muxWalk, ih]
+    | trun ok => cases ok <;> simp [muxWalk, ih]
+
+/-- order condition (the side condition of finding `mux-nil-box-order`): no readable tfdt before the first
+readable tfhd, no readable trun before the first readable tfdt. -/
+def Ordered : Bool → Bool → List MEv → Bool
+  | _, _, [] => true
+  | h, d, .other :: r => Ordered h d r
+  | _, d, .tfhd ok :: r => if ok then Ordered true d r else true
+  | h, d, .tfdt ok tf :: r => if !ok then true else if !h then false else if !tf then true else Ordered h true r
+  | h, d, .trun ok :: r => if !ok then true else if !d then false else Ordered h d r
+
+theorem muxWalk_cur_partial : ∀ (evs : List MEv) (h d : Bool), Ordered h d evs = true →
+    muxWalk false h d evs = .noPanic := by
+  intro evs
+  induction evs with
+  | nil => intro h d _; rfl
+  | cons e r ih =>
+    intro h d ho
+    cases e with
+    | other => simp [muxWalk]; exact ih h d (by simpa [Ordered] using ho)
+    | tfhd ok =>
+      cases ok
+      · simp [muxWalk]
+      · simp [muxWalk]; exact ih true d (by simpa [Ordered] using ho)
+    | tfdt ok tf =>
+      cases ok
+      · simp [muxWalk]
+      · cases h
+        · simp [Ordered] at ho
+        · cases tf
+          · simp [muxWalk]
+          · simp [muxWalk]; exact ih true true (by simpa [Ordered] using ho)
+    | trun ok =>
+      cases ok
+      · simp [muxWalk]
+      · cases d
+        · simp [Ordered] at ho
+        · simp [muxWalk]; exact ih h true (by simpa [Ordered] using ho)
+
+/-- the parts the recorder writes (moof, mfhd, then per track traf, tfhd, tfdt, trun; then mdat) are ordered -/
+example : Ordered false false [.other, .other, .other, .tfhd true, .tfdt true true, .trun true, .other,
+    .tfhd true, .tfdt true true, .trun true, .other] = true := by decide
+
+/-! #### non-vacuity -/
+
+/-- the side conditions of the partial theorem are satisfiable, and the parse then succeeds -/
+example : (parseSegment cur witnessLibAlloc
+    ([0, 0, 0, 8] ++ tFtyp ++ [0, 0, 0, 8] ++ tMoov)).1 = .err .moof := by decide
+
+example : Fits (parseSegment cur witnessLibAlloc ([0, 0, 0, 8] ++ tFtyp ++ [0, 0, 0, 8] ++ tMoov)).2 := by decide
+
+/-- current and fixed code agree on a well-formed part (one traf, sizes consistent) -/
+def goodFile : Bytes :=
+  [0, 0, 0, 8] ++ tFtyp ++ [0, 0, 0, 8] ++ tMoov ++
+  [0, 0, 0, 60] ++ tMoof ++ [0, 0, 0, 16] ++ tMfhd ++ [0, 0, 0, 0, 0, 0, 0, 0] ++
+  [0, 0, 0, 36] ++ tTraf ++ [0, 0, 0, 9] ++ tTfhd ++ [7] ++ [0, 0, 0, 9] ++ tTfdt ++ [8] ++ [0, 0, 0, 10] ++ tTrun ++ [1, 2] ++
+  [0, 0, 0, 8] ++ tMdat
+
+def goodLib : Lib :=
+  { mvhd := fun _ _ => .ok (0, 1000), tfhd := fun _ => some 1, tfdt := fun b => some (b.length * 90000),
+    trun := fun b => some (b.length * 45000), init := fun _ => .ok [⟨1, 90000⟩] }
+
+example : (parseSegment cur goodLib goodFile).1 = .ok ([⟨1, 90000⟩], 2000000000) := by decide
+example : parseSegment cur goodLib goodFile = parseSegment fixed goodLib goodFile := by decide
+
 end MtxVerif.C28
